@@ -9,8 +9,12 @@ mod rng;
 use std::io::{BufRead, Write};
 
 fn main() {
-    // panics are expected outcomes here: keep stderr quiet
-    std::panic::set_hook(Box::new(|_| {}));
+    // panics are expected outcomes here: keep stderr quiet — but COUNT them: a panic that the crate catches itself
+    // (and recovers from) never reaches the harness's own catch_unwind, yet it is a panic, and aborts the process
+    // under panic = "abort"
+    std::panic::set_hook(Box::new(|_| {
+        ops::PANICS_RAISED.fetch_add(1, std::sync::atomic::Ordering::SeqCst);
+    }));
     let args: Vec<String> = std::env::args().collect();
     let stdout = std::io::stdout();
     let mut out = std::io::BufWriter::new(stdout.lock());
@@ -26,7 +30,7 @@ fn main() {
                 let mut r = rng::Rng::new(seed.wrapping_mul(0x9E3779B97F4A7C15).wrapping_add(n as u64).wrapping_mul(0xD1B54A32D192ED03) ^ (n as u64) << 32 ^ seed);
                 let (mode, input) = gen::gen_case(prop, &mut r, n, tier == "thorough");
                 let id = format!("#{}-{}-{}", prop, seed, n);
-                writeln!(out, "{}", ops::run(&id, &mode, &input)).unwrap();
+                writeln!(out, "{}", ops::run_counted(&id, &mode, &input)).unwrap();
             }
         }
         Some("rerun") => {
@@ -34,7 +38,7 @@ fn main() {
             for line in stdin.lock().lines() {
                 let line = line.unwrap();
                 if let Some((id, mode, input)) = ops::parse_line(&line) {
-                    writeln!(out, "{}", ops::run(&id, &mode, &input)).unwrap();
+                    writeln!(out, "{}", ops::run_counted(&id, &mode, &input)).unwrap();
                 }
             }
         }
